@@ -1,6 +1,6 @@
 from typing import Optional
 
-from .tree import BinaryTreeNode
+from .tree import LEFT, RIGHT, BinaryTreeNode
 
 
 class TidierExtreme:
@@ -8,12 +8,17 @@ class TidierExtreme:
     right: Optional[BinaryTreeNode]
     thread: Optional[BinaryTreeNode]
     offset: float
+    left_offset: float
+    right_offset: float
 
     def __init__(self) -> None:
         self.left = None
         self.right = None
         self.thread = None
         self.offset = 0
+        # Horizontal position of the left/right extreme relative to the subtree root
+        self.left_offset = 0
+        self.right_offset = 0
 
 
 class TreeMeasurement:
@@ -62,9 +67,27 @@ class TreeLayout:
         if not node:
             return
         node.__dict__.pop("thread", None)
+        node.__dict__.pop("thread_side", None)
         node.__dict__.pop("level", None)
         self.reset(node.left)
         self.reset(node.right)
+
+    @staticmethod
+    def _thread(node: BinaryTreeNode, side: str) -> Optional[BinaryTreeNode]:
+        """The thread target of a node, if it has one on the given side"""
+        if node.__dict__.get("thread_side") != side:
+            return None
+        return node.__dict__.get("thread")
+
+    @staticmethod
+    def _set_thread(
+        node: BinaryTreeNode, target: BinaryTreeNode, distance: float
+    ) -> None:
+        """Thread a leaf to the node that continues the contour below it, `distance`
+        to its right (positive) or left (negative)"""
+        node.thread = target
+        node.__dict__["thread_side"] = RIGHT if distance > 0 else LEFT
+        node.offset = abs(distance)
 
     @staticmethod
     def _level(node: Optional[BinaryTreeNode]) -> float:
@@ -117,6 +140,7 @@ class TreeLayout:
         if not node.right and not node.left:
             node.offset = 0
             extremes.right = extremes.left = node
+            extremes.left_offset = extremes.right_offset = 0
             return self
 
         # Set the current separation to the minimum separation for the root of the
@@ -136,23 +160,28 @@ class TreeLayout:
                 root_separation += min_separation - current_separation
                 current_separation = min_separation
 
-            if left.right and left.offset:
+            # Follow the right contour of the left subtree and the left contour of the
+            # right subtree. A leaf that was threaded continues at its thread target,
+            # which lies on the side recorded with the thread.
+            left_next_right = left.right or self._thread(left, RIGHT)
+            if left_next_right and left.offset:
                 left_offset_sum += left.offset
                 current_separation -= left.offset
-                left = getattr(left, "thread", left.right)
+                left = left_next_right
             elif left.offset is not None:
                 left_offset_sum -= left.offset
                 current_separation += left.offset
-                left = getattr(left, "thread", left.left)
+                left = left.left or self._thread(left, LEFT) or left_next_right
 
-            if right.left and right.offset:
+            right_next_left = right.left or self._thread(right, LEFT)
+            if right_next_left and right.offset:
                 right_offset_sum -= right.offset
                 current_separation -= right.offset
-                right = getattr(right, "thread", right.left)
+                right = right_next_left
             elif right.offset is not None:
                 right_offset_sum += right.offset
                 current_separation += right.offset
-                right = getattr(right, "thread", right.right)
+                right = right.right or self._thread(right, RIGHT) or right_next_left
 
         # Set the root offset, and include it in the accumulated offsets.
         node.offset = (root_separation + 1) / 2
@@ -160,49 +189,37 @@ class TreeLayout:
         left_offset_sum -= node.offset
         right_offset_sum += node.offset
 
-        # Update right and left extremes
+        # Update right and left extremes. Each extreme carries its own horizontal
+        # position relative to the subtree root: one leaf can be the leftmost and the
+        # rightmost node of the lowest level at the same time.
         right_left_level = self._level(right_extremes.left)
         left_left_level = self._level(left_extremes.left)
         if right_left_level > left_left_level or not node.left:
             extremes.left = right_extremes.left
-            if extremes.left:
-                assert extremes.left.offset is not None
-                extremes.left.offset += node.offset
-
+            extremes.left_offset = right_extremes.left_offset + node.offset
         else:
             extremes.left = left_extremes.left
-            if extremes.left:
-                assert extremes.left.offset is not None
-                extremes.left.offset -= node.offset
+            extremes.left_offset = left_extremes.left_offset - node.offset
 
         left_right_level = self._level(left_extremes.right)
         right_right_level = self._level(right_extremes.right)
         if left_right_level > right_right_level or not node.right:
             extremes.right = left_extremes.right
-            if extremes.right:
-                assert extremes.right.offset is not None
-                extremes.right.offset -= node.offset
-
+            extremes.right_offset = left_extremes.right_offset - node.offset
         else:
             extremes.right = right_extremes.right
-            if extremes.right:
-                assert extremes.right.offset is not None
-                extremes.right.offset += node.offset
+            extremes.right_offset = right_extremes.right_offset + node.offset
 
         # If the subtrees have uneven heights, check to see if they need to be
         # threaded.  If threading is required, it will affect only one node.
-        if left and left != node.left and right_extremes and right_extremes.right:
-            right_extremes.right.thread = left
-            assert right_extremes.right.offset is not None
-            right_extremes.right.offset = abs(
-                right_extremes.right.offset + node.offset - left_offset_sum
-            )
-        elif right and right != node.right and left_extremes and left_extremes.left:
-            left_extremes.left.thread = right
-            assert left_extremes.left.offset is not None
-            left_extremes.left.offset = abs(
-                left_extremes.left.offset - node.offset - right_offset_sum
-            )
+        if left and left != node.left and right_extremes.right:
+            # The left subtree is deeper: continue the right contour below the lowest
+            # rightmost node of the right subtree
+            distance = left_offset_sum - (right_extremes.right_offset + node.offset)
+            self._set_thread(right_extremes.right, left, distance)
+        elif right and right != node.right and left_extremes.left:
+            distance = right_offset_sum - (left_extremes.left_offset - node.offset)
+            self._set_thread(left_extremes.left, right, distance)
 
         return self
 
